@@ -6,10 +6,10 @@ CONSTANTS
   Backlog = 2
   Slots = 2
   SynCids = {1, 7}
-  MaxSyn = 3
-  MaxConnect = 2
+  MaxSyn = 2
+  MaxConnect = 1
   MaxAccept = 3
-  MaxEnd = 2
-  Variant = "code"
+  MaxEnd = 1
+  Variant = "no_rescan"
 INVARIANTS TypeOK KeyUnique LimitRespected NoEviction BacklogBound RefusedOnlyWhenFull AcceptFifo AcceptCallOrder SlotsBounded NoIdleAcceptor ParkedNotStarved
 CHECK_DEADLOCK FALSE
